@@ -132,7 +132,13 @@ def impl_reject(args):
 
 NARROW_POSITIONS = ["(%s)!", "C(%s, 2)", "C(6, %s)", "range(1, %s)", "range(%s, 9)", "1..%s", "%s..9", "sample(Bernoulli(1/2), %s)",
                     "Binomial(%s, 1/2)", "UniformInt(1, %s)", "UniformInt(%s, 9)", "Poisson(%s)", "#2024-01-01# + %s", "#2024-01-01# - %s"]
-NON_INTEGERS = ["(1/2)", "2.5", "(7/2)", "(3!/4!)", "(5!/7)", "(C(5,2)/4)", "(0-7/2)", "1e-3"]
+NON_INTEGERS = ["(1/2)", "2.5", "(7/2)", "(3!/4!)", "(5!/7)", "(C(5,2)/4)", "(0-7/2)", "1e-3",
+                # floats one or two ulps from a whole number are not whole numbers
+                "3.0000000000000004", "(0.1*3*10)", "2.9999999999999996", "(4.35*100)"]
+# keyword arguments are validated whatever their value is (a falsy value is still a value)
+BAD_KEYWORDS = ["cos(0, x: 0)", "cos(0, x: 1)", "sin(1, zz: \"\")", "options(title: 0)", "options(title: 1)", "vline(1, weight: \"\")",
+                "vline(1, weight: \"a\")", "hline(2, style: 0)", "hline(2, style: 1 - 1)", "options(nosuch: 0)", "sqrt(4, k: false)",
+                "max(1, 2, k: 0)", "x = 1 - 1; hline(2, style: x)"]
 WIDER_OK = [("sqrt(3!+3)", "I:3"), ("abs(0-3!)", "I:6"), ("sqrt(4)", "I:2"), ("abs(3!)", "I:6"), ("1..(3!/2)", "A:[I:1;I:2;I:3]"),
             ("2.0 + 1", "I:3"), ("(4/2)!", "I:2"), ("floor(7/2) + 3!", "I:9")]
 
@@ -146,6 +152,9 @@ def narrowing_items():
             items.append(([pat % v], (lambda o: o.get("status") == 1 and not o.get("escaped") and (o.get("err") or "").strip() != ""
                                       and (o.get("out") or "") == ""),
                           "a non-integer where an integer is required is a diagnosed error"))
+    for text in BAD_KEYWORDS:
+        items.append(([text], (lambda o: o.get("status") == 1 and not o.get("escaped") and (o.get("err") or "").strip() != ""),
+                      "an unknown keyword or a wrongly typed keyword value is rejected whatever the value is"))
     for text, want in WIDER_OK:
         items.append(([text], want, "a value of a narrower kind is accepted where a wider numeric kind is expected"))
     return items
